@@ -760,9 +760,9 @@ const char* STUB11 = "network (TCP stub with fragmentation, short sends, latency
 
 } // namespace
 
-REGISTER_SCENARIO(c11_asl, "C11", "ws_asl", genAsl, runAsl, 15000, 600000, {4, 16, 64}, 0, 6000000, 600.0,
+REGISTER_SCENARIO(c11_asl, "C11", "ws_asl", genAsl, runAsl, 15000, 600000, {4, 16, 64}, 0, 8000000, 30000.0,
                   "non-trivial: a payload length within +-2 of a header-format boundary (125/126, 65535/65536) or a read fragmented by the stub; distinct by plan hash x context-switch signature", REAL11, STUB11, false);
-REGISTER_SCENARIO(c11_framer, "C11", "ws_framer", genFramer, runFramer, 30000, 1500000, {4, 16, 64}, 0, 6000000, 600.0,
+REGISTER_SCENARIO(c11_framer, "C11", "ws_framer", genFramer, runFramer, 30000, 1500000, {4, 16, 64}, 0, 8000000, 30000.0,
                   "every run (frames built/checked by the independent framer: fragmentation into 1-4 frames, mask keys with zero bytes, pings before messages and between fragments); distinct by plan hash x context-switch signature", REAL11,
                   STUB11, false);
 REGISTER_SCENARIO(c11_hostile, "C11", "ws_hostile", genHostileWs, runHostileWs, 30000, 1500000, {4, 16}, 0, 3000000, 900.0, "non-trivial: the frame stream was cut strictly inside; distinct by plan hash x context-switch signature", REAL11, STUB11,
